@@ -18,6 +18,7 @@ type Fam = (&'static str, &'static str, Option<&'static [&'static str]>);
 fn families(property: &str) -> Vec<Fam> {
     const C02_CORE: &[&str] = &["routing", "flush", "probe", "panic", "spin", "livelock"];
     const C09_CORE: &[&str] = &["spin", "livelock", "sleep"];
+    const C11_REBIND: &[&str] = &["binding", "panic", "spin", "livelock", "probe"];
     match property {
         // the fault family is included: the statement is about subscribers that *stay healthy* while
         // others may fail, be evicted and be replaced by new registrations
@@ -26,10 +27,12 @@ fn families(property: &str) -> Vec<Fam> {
         "C02" => vec![("reqrep", "c02", None), ("reqrep", "c02", None), ("reqrep", "c10", Some(C02_CORE))],
         "C08" => vec![("pubsub", "c08", None), ("reqrep", "c08", None)],
         // "all reachable router states" includes the states reached through faults and re-binding
-        "C09" => vec![("pubsub", "c09", None), ("reqrep", "c09", None), ("pubsub", "c09", None), ("reqrep", "c09", None), ("pubsub", "c08", Some(C09_CORE)), ("reqrep", "c08", Some(C09_CORE)), ("reqrep", "c10", Some(C09_CORE))],
+        "C09" => vec![("pubsub", "c09", None), ("reqrep", "c09", None), ("pubsub", "c09", None), ("reqrep", "c09", None), ("pubsub", "c08", Some(C09_CORE)), ("reqrep", "c08", Some(C09_CORE)), ("reqrep", "c10", Some(C09_CORE)), ("pubsub", "burst", None), ("reqrep", "burst", None)],
         "C10" => vec![("reqrep", "c10", None)],
-        "C11" => vec![("pubsub", "c11", None), ("reqrep", "c11", None)],
-        "C16" => vec![("pubsub", "c16", None), ("reqrep", "c16", None)],
+        // "accepted and then silently abandoned" also covers repliers that race for a topic: each must end up
+        // served or explicitly refused (binding oracle), whatever the other repliers' sinks do
+        "C11" => vec![("pubsub", "c11", None), ("reqrep", "c11", None), ("reqrep", "c10", Some(C11_REBIND))],
+        "C16" => vec![("pubsub", "c16", None), ("reqrep", "c16", None), ("pubsub", "c16", None), ("reqrep", "c16", None), ("pubsub", "burst", None), ("reqrep", "burst", None)],
         _ => vec![],
     }
 }
